@@ -29,12 +29,12 @@ MACHINE_OF = {"C03": "machine_sweep", "C04": "machine_sweep", "C05": "machine_sw
 
 # runs per batch (fault-free, fault-injecting) and wall caps (seconds) per tier
 TIERS = {
-    "machine_sweep": {"quick": {"runs": (60000, 60000), "wall": 75, "chunk": 400},
-                      "thorough": {"runs": (1500000, 1500000), "wall": 840, "chunk": 1000}},
-    "machine_pool": {"quick": {"runs": (30000, 20000), "wall": 100, "chunk": 100},
-                     "thorough": {"runs": (600000, 400000), "wall": 1100, "chunk": 250}},
-    "machine_born": {"quick": {"runs": (40000, 0), "wall": 60, "chunk": 200},
-                     "thorough": {"runs": (800000, 0), "wall": 600, "chunk": 500}},
+    "machine_sweep": {"quick": {"runs": (80000, 80000), "wall": 80, "chunk": 500},
+                      "thorough": {"runs": (2000000, 2000000), "wall": 840, "chunk": 2000}},
+    "machine_pool": {"quick": {"runs": (20000, 15000), "wall": 110, "chunk": 100},
+                     "thorough": {"runs": (400000, 300000), "wall": 1100, "chunk": 250}},
+    "machine_born": {"quick": {"runs": (14000, 0), "wall": 80, "chunk": 100},
+                     "thorough": {"runs": (300000, 0), "wall": 800, "chunk": 250}},
 }
 RUN_TIMEOUT_S = 120
 REEXEC_EVERY = 97   # ~1 % of runs are executed twice in-process and their digests compared
@@ -154,7 +154,8 @@ def load_known():
 
 def known_match(known, prop, signature):
     for k in known:
-        if k.get("property") == prop and k.get("status") == "known" and k.get("signature") == signature:
+        if k.get("property") == prop and k.get("status") == "known" and \
+                (k.get("signature") == signature or signature in k.get("signatures", ())):
             return k
     return None
 
